@@ -6,7 +6,7 @@
    into these fields (rfc822.NewHeader, rfc822.Split, rfc5322.ParseDateTime, SQLite date round trip) is INPUT
    to this model, not part of it.  No proofs in this file. *)
 From Coq Require Import List NArith Bool String Ascii.
-From Gluon Require Import Model.SeqSet.
+From Gluon Require Import Model.SeqSet Gen.FactsCharset.
 Import ListNotations.
 Open Scope N_scope.
 
@@ -37,8 +37,81 @@ Fixpoint prefixb (p s : bytes) : bool :=
 Fixpoint containsb (needle hay : bytes) : bool :=
   prefixb needle hay || match hay with [] => false | _ :: t => containsb needle t end.
 
-(* case-insensitive substring test as SEARCH uses it *)
-Definition ci_contains (needle hay : bytes) : bool := containsb (lower needle) (lower hay).
+(* ---------- text: UTF-8, SEARCH CHARSET decoders, Unicode lower-casing ----------
+   The per-byte tables of the single-byte charsets and the pairs of unicode.ToLower come from Gen/FactsCharset.v
+   (obtained by executing the decoders / unicode.ToLower the server uses). *)
+Definition is_cont (b : N) : bool := (128 <=? b) && (b <? 192).
+
+(* utf8.DecodeRune, rune by rune: an invalid byte yields U+FFFD and is skipped alone (overlong forms and surrogates are
+   not told apart from valid sequences: the texts of the harness are valid UTF-8) *)
+Fixpoint utf8_decode (l : list N) : list N :=
+  match l with
+  | [] => []
+  | b0 :: t0 =>
+      if b0 <? 128 then b0 :: utf8_decode t0
+      else if (194 <=? b0) && (b0 <? 224) then
+        match t0 with
+        | b1 :: t1 => if is_cont b1 then ((b0 - 192) * 64 + (b1 - 128)) :: utf8_decode t1
+                      else 65533 :: utf8_decode t0
+        | [] => [65533]
+        end
+      else if (224 <=? b0) && (b0 <? 240) then
+        match t0 with
+        | b1 :: (b2 :: t2) as t1 =>
+            if is_cont b1 && is_cont b2 then ((b0 - 224) * 4096 + (b1 - 128) * 64 + (b2 - 128)) :: utf8_decode t2
+            else 65533 :: utf8_decode t0
+        | _ => 65533 :: utf8_decode t0
+        end
+      else if (240 <=? b0) && (b0 <? 245) then
+        match t0 with
+        | b1 :: (b2 :: (b3 :: t3) as t2) as t1 =>
+            if is_cont b1 && is_cont b2 && is_cont b3
+            then ((b0 - 240) * 262144 + (b1 - 128) * 4096 + (b2 - 128) * 64 + (b3 - 128)) :: utf8_decode t3
+            else 65533 :: utf8_decode t0
+        | _ => 65533 :: utf8_decode t0
+        end
+      else 65533 :: utf8_decode t0
+  end.
+
+Definition utf8_enc1 (c : N) : bytes :=
+  if c <? 128 then [c]
+  else if c <? 2048 then [192 + c / 64; 128 + c mod 64]
+  else if c <? 65536 then [224 + c / 4096; 128 + (c / 64) mod 64; 128 + c mod 64]
+  else [240 + c / 262144; 128 + (c / 4096) mod 64; 128 + (c / 64) mod 64; 128 + c mod 64].
+Definition utf8_encode (l : list N) : bytes := flat_map utf8_enc1 l.
+
+Fixpoint assoc_n (c : N) (t : list (N * N)) : option N :=
+  match t with [] => None | (k, v) :: r => if c =? k then Some v else assoc_n c r end.
+
+(* unicode.ToLower on the blocks tabulated in FactsCharset.lower_pairs; other code points are left alone *)
+Definition lower_cp (c : N) : N :=
+  if c <? 128 then lower_byte c
+  else if lower_pairs_limit <? c then c
+  else match assoc_n c lower_pairs with Some v => v | None => c end.
+
+(* strings.ToLower / bytes.ToLower on UTF-8 text *)
+Definition ufold (s : bytes) : bytes := utf8_encode (map lower_cp (utf8_decode s)).
+
+(* the CHARSET of the SEARCH command (handle_search.go: none = encoding.Nop) *)
+Inductive charset := CsNone | CsAscii | CsUtf8 | CsLatin1 | CsCp1252 | CsLatin9 | CsKoi8r.
+
+Definition dec_byte (tbl : list N) (b : N) : N :=
+  if b <? 128 then b else nth (N.to_nat (b - 128)) tbl 65533.
+
+(* decoder.Bytes(key): the key as UTF-8 *)
+Definition decode (cs : charset) (s : bytes) : bytes :=
+  match cs with
+  | CsNone | CsAscii => s
+  | CsUtf8 => utf8_encode (utf8_decode s)
+  | CsLatin1 => utf8_encode (map (dec_byte tbl_latin1) s)
+  | CsCp1252 => utf8_encode (map (dec_byte tbl_cp1252) s)
+  | CsLatin9 => utf8_encode (map (dec_byte tbl_latin9) s)
+  | CsKoi8r => utf8_encode (map (dec_byte tbl_koi8r) s)
+  end.
+
+(* a string key is decoded with the charset FIRST and then folded; the message text is folded *)
+Definition keynorm (cs : charset) (s : bytes) : bytes := ufold (decode cs s).
+Definition ci_contains (cs : charset) (needle hay : bytes) : bool := containsb (keynorm cs needle) (ufold hay).
 
 Record msgdata := mkMsg {
   m_seq : N;                       (* position in the session's view, 1-based *)
@@ -91,9 +164,13 @@ Fixpoint hdr_first (f : bytes) (h : list (bytes * bytes)) : bytes :=
   | (n, v) :: t => if name_eqb f n then v else hdr_first f t
   end.
 
+Section WithCharset.
+(* the charset of the SEARCH command: a parameter of everything below *)
+Variable cs : charset.
+
 (* HEADER: some field with that name contains the string (the empty string: the field exists) *)
 Definition hdr_any (f s : bytes) (h : list (bytes * bytes)) : bool :=
-  existsb (fun nv => name_eqb f (fst nv) && ci_contains s (snd nv)) h.
+  existsb (fun nv => name_eqb f (fst nv) && ci_contains cs s (snd nv)) h.
 
 (* sequence-set denotation (RFC 3501 seq-range: the order of the two ends is irrelevant) *)
 Definition range_memb (star : N) (r : wrange) (p : N) : bool :=
@@ -121,13 +198,13 @@ Definition eval_leaf (cnt : N) (uids : list N) (l : leaf) (m : msgdata) : bool :
   | LUnseen => negb (has_flag f_seen m)
   | LKeyword f => has_flag (lower f) m
   | LUnkeyword f => negb (has_flag (lower f) m)
-  | LBcc s => ci_contains s (hdr_first (bs "bcc") (m_hdrs m))
-  | LCc s => ci_contains s (hdr_first (bs "cc") (m_hdrs m))
-  | LFrom s => ci_contains s (hdr_first (bs "from") (m_hdrs m))
-  | LSubject s => ci_contains s (hdr_first (bs "subject") (m_hdrs m))
-  | LTo s => ci_contains s (hdr_first (bs "to") (m_hdrs m))
-  | LBody s => ci_contains s (m_body m)
-  | LText s => ci_contains s (m_text m)
+  | LBcc s => ci_contains cs s (hdr_first (bs "bcc") (m_hdrs m))
+  | LCc s => ci_contains cs s (hdr_first (bs "cc") (m_hdrs m))
+  | LFrom s => ci_contains cs s (hdr_first (bs "from") (m_hdrs m))
+  | LSubject s => ci_contains cs s (hdr_first (bs "subject") (m_hdrs m))
+  | LTo s => ci_contains cs s (hdr_first (bs "to") (m_hdrs m))
+  | LBody s => ci_contains cs s (m_body m)
+  | LText s => ci_contains cs s (m_text m)
   | LHeader f s => hdr_any f s (m_hdrs m)
   | LBefore d => m_iday m <? d
   | LOn d => m_iday m =? d
@@ -149,6 +226,8 @@ Fixpoint eval (cnt : N) (uids : list N) (k : key) (m : msgdata) : bool :=
   | KOr a b => eval cnt uids a m || eval cnt uids b m
   | KList l => forallb (fun a => eval cnt uids a m) l
   end.
+
+End WithCharset.
 
 (* the keys for which the command as a whole must be refused (BAD): a sequence number outside the view, a
    number that is not a valid nz-number / number *)
